@@ -4,17 +4,17 @@
 # existing tests of the given packages (demo skipped) show no stable-baseline failure.
 export GOFLAGS=-mod=mod GOPROXY=off GOSUMDB=off GOTOOLCHAIN=local
 id=$1; shift
-cd /tmp/wt/$id || exit 2
-L=/tmp/wt/$id/confirm.log; : > $L
-git diff -- internal > /tmp/wt/$id/current.diff
-if ! diff -q /tmp/wt/$id/current.diff /tmp/wt/$id/patch.diff >/dev/null; then echo "NOTE patch.diff differs from working tree diff (using working tree diff)" >> $L; cp /tmp/wt/$id/current.diff /tmp/wt/$id/patch.diff; fi
+cd ${WT:-/tmp/wt}/$id || exit 2
+L=${WT:-/tmp/wt}/$id/confirm.log; : > $L
+git diff -- internal > ${WT:-/tmp/wt}/$id/current.diff
+if ! diff -q ${WT:-/tmp/wt}/$id/current.diff ${WT:-/tmp/wt}/$id/patch.diff >/dev/null; then echo "NOTE patch.diff differs from working tree diff (using working tree diff)" >> $L; cp ${WT:-/tmp/wt}/$id/current.diff ${WT:-/tmp/wt}/$id/patch.diff; fi
 demo=$(python3 -c "import json;print(json.load(open('meta.json'))['demo_cmd'])")
 echo "demo_cmd: $demo" >> $L
 go build ./... >> $L 2>&1 && echo "BUILD ok" >> $L || echo "BUILD FAILED" >> $L
-( eval "$demo" ) > /tmp/wt/$id/demo_with.log 2>&1; echo "DEMO with change rc=$?" >> $L
+( eval "$demo" ) > ${WT:-/tmp/wt}/$id/demo_with.log 2>&1; echo "DEMO with change rc=$?" >> $L
 git apply -R patch.diff || echo "REVERT FAILED" >> $L
-( eval "$demo" ) > /tmp/wt/$id/demo_without.log 2>&1; echo "DEMO without change rc=$?" >> $L
+( eval "$demo" ) > ${WT:-/tmp/wt}/$id/demo_without.log 2>&1; echo "DEMO without change rc=$?" >> $L
 git apply patch.diff || echo "REAPPLY FAILED" >> $L
-go test -json -vet=off -count=1 -timeout 40m -skip "Seeded|TestTimingTTSize|TestWACTests|TestCrafty|TestECM|TestNullMove|TestSTS|TestArasan|TestFranky|TestEndGame|TestStressTests" "$@" > /tmp/wt/$id/tests.json 2>/tmp/wt/$id/tests.err
-python3 /verif/tools/baseline_cmp.py /tmp/wt/$id/tests.json >> $L 2>&1
+go test -json -vet=off -count=1 -timeout 40m -skip "Seeded|TestTimingTTSize|TestWACTests|TestCrafty|TestECM|TestNullMove|TestSTS|TestArasan|TestFranky|TestEndGame|TestStressTests" "$@" > ${WT:-/tmp/wt}/$id/tests.json 2>${WT:-/tmp/wt}/$id/tests.err
+python3 /verif/tools/baseline_cmp.py ${WT:-/tmp/wt}/$id/tests.json >> $L 2>&1
 echo DONE >> $L
